@@ -3,7 +3,7 @@
     Model/ESControl.v, for all arguments, and the two copies in the two classes are the same function:
     `_check_restart` (per restart rule), the number of parents, and the restart decision of `tell` (evaluated after
     `_itrs += 1`, on the number of inserted solutions). *)
-From Coq Require Import List ZArith Arith Bool.
+From Coq Require Import List ZArith Arith Bool Lia.
 From PV Require Import Base.ListUtil Model.Store Model.ESControl Generated.ESGen.
 
 Theorem gen_check_restart_ESE_refines r itrs n : gen_check_restart_ESE r itrs n = check_restart r itrs n.
@@ -19,6 +19,15 @@ Theorem gen_num_parents_refines k sel r batch new_sols :
   gen_num_parents_ESE sel new_sols batch = num_parents (mkCfg k sel r batch) new_sols /\
   gen_num_parents_GAE sel new_sols batch = num_parents (mkCfg k sel r batch) new_sols.
 Proof. destruct sel; split; reflexivity. Qed.
+
+(** the number of parents read from the source never exceeds the batch when at most [batch] solutions were inserted (always the case:
+    the insertion count is a count over the batch), so `parents[:num_parents]` never reaches past the ranked rows *)
+Theorem gen_num_parents_le_batch sel new_sols batch : (new_sols <= batch)%nat ->
+  (gen_num_parents_ESE sel new_sols batch <= batch)%nat /\ (gen_num_parents_GAE sel new_sols batch <= batch)%nat.
+Proof.
+  intros H. destruct sel; cbn [gen_num_parents_ESE gen_num_parents_GAE]; split; try exact H;
+  (destruct batch as [|b]; [reflexivity|apply Nat.lt_le_incl, Nat.div_lt; lia]).
+Qed.
 
 (** the restart decision taken by the model's [tell] is the translated one, for both classes *)
 Theorem gen_restart_refines (P V : Type) (c : cfg) (e : env P V) (s : state P) rows statuses :
@@ -42,3 +51,4 @@ Print Assumptions gen_check_restart_GAE_refines.
 Print Assumptions gen_check_restart_same.
 Print Assumptions gen_num_parents_refines.
 Print Assumptions gen_restart_refines.
+Print Assumptions gen_num_parents_le_batch.
